@@ -429,10 +429,9 @@ theorem columns_commute (p : Precursor) (dests : List Str) :
 /-- **jsondata_commutes**: for a precursor `p` (one unit and one array per column name) and the Table built
     from it (destinations as the set iterates them), `make_table_json_data` and `table_to_json_data` return
     equal JsonData; the "columns" member is identical including its order and lists every column.
-    The hypotheses are shape facts of every precursor a successful read delivers — `hnd`: destinations are dict
-    keys (`destinations_nodup`); `hc`: `finish` pads the columns to one per name; `hn`: column names are dict keys
-    (`_fix_duplicate_column_names`); `hperm`: the Table holds the destinations as a set — stated as hypotheses
-    because `Reader.layout` is not inverted here.
+    `hnd`, `hu`, `hc` are shape facts of every precursor a reader delivers (`makePrecursor_shape`; see
+    `jsondata_commutes_read`, which needs only `hperm` — the Table holds the destinations as a set — and `hn`:
+    column names are dict keys, `_fix_duplicate_column_names` makes them distinct).
     (`hu`: a unit row shorter than the name row is an input error — /repo commit 7179188, `Reader.layout` —
     so every precursor a reader produces has one unit per name; before that fix a table without rows slipped
     through as a Table whose column register was shorter than its frame, on which `table_to_json_data` raised
@@ -514,6 +513,94 @@ example : ["b".toList, "a".toList].Perm examplePrecursor.destinations ∧ exampl
     examplePrecursor.units.length = examplePrecursor.names.length ∧
     examplePrecursor.columns.length = examplePrecursor.names.length ∧ examplePrecursor.names.Nodup :=
   ⟨List.Perm.swap _ _ _, by decide, rfl, rfl, by decide⟩
+
+theorem layout_destinations (cells : List Row) (L : Layout) (h : layout cells = .ok L) : L.destinations.Nodup := by
+  unfold layout at h
+  simp only [bind, Except.bind, pure, Except.pure] at h
+  repeat' (split at h <;> try (simp at h))
+  all_goals (try (subst h; exact destinations_nodup _))
+
+theorem foldl_dupStep_length (ps : List (Str × Nat)) (acc : List Str × Fixer) :
+    (ps.foldl dupStep acc).1.length = acc.1.length + ps.length := by
+  induction ps generalizing acc with
+  | nil => simp
+  | cons p ps ih =>
+    simp only [List.foldl_cons, ih, List.length_cons]
+    have : (dupStep acc p).1.length = acc.1.length + 1 := by
+      unfold dupStep; split <;> simp
+    omega
+
+theorem fixDuplicates_length (names : List Str) (f : Fixer) : (fixDuplicates names f).1.length = names.length := by
+  unfold fixDuplicates
+  rw [foldl_dupStep_length]; simp
+
+theorem parseColumns_length (ext : Ext) (us : List Str) (cols : List Row) (f : Fixer) (vs : List ColVals) (f' : Fixer)
+    (h : parseColumns ext us cols f = .ok (vs, f')) : vs.length ≤ us.length := by
+  induction us generalizing cols f vs f' with
+  | nil => simp [parseColumns] at h; simp [h.1]
+  | cons u us ih =>
+    cases cols with
+    | nil => simp [parseColumns] at h; simp [h.1]
+    | cons c cs =>
+      simp only [parseColumns] at h
+      cases h1 : parseColumn ext u c f with
+      | error e => simp [h1, bind, Except.bind] at h
+      | ok r1 =>
+        obtain ⟨v1, g1⟩ := r1
+        simp only [h1, bind, Except.bind] at h
+        cases h2 : parseColumns ext us cs g1 with
+        | error e => simp [h2] at h
+        | ok r2 =>
+          obtain ⟨v2, g2⟩ := r2
+          simp [h2, pure, Except.pure] at h
+          have := ih cs g1 v2 g2 h2
+          rw [← h.1]; simp; omega
+
+/-- shape of every precursor `make_table_json_precursor` delivers: one unit and one array per column name,
+    pairwise distinct destinations -/
+theorem makePrecursor_shape (ext : Ext) (cells : List Row) (f0 f : Fixer) (p : Precursor)
+    (h : makePrecursor ext cells f0 = .ok (p, f)) :
+    p.units.length = p.names.length ∧ p.columns.length = p.names.length ∧ p.destinations.Nodup := by
+  unfold makePrecursor at h
+  cases hl : layout cells with
+  | error e => simp [hl, bind, Except.bind] at h
+  | ok L =>
+    simp only [hl, bind, Except.bind] at h
+    have hu := C02.layout_shape cells L hl
+    have hd := layout_destinations cells L hl
+    unfold finish at h
+    have hlen := fixDuplicates_length L.names0 f0
+    cases hdup : fixDuplicates L.names0 f0 with
+    | mk names f1 =>
+    rw [hdup] at hlen
+    simp only at hlen
+    cases hsh : fixShortRows L.rows0 names.length f1 with
+    | mk rows f2 =>
+    simp only [hdup, hsh, bind, Except.bind] at h
+    cases hp : parseColumns ext L.units (if rows.isEmpty = true then [] else transposeN rows names.length) f2 with
+    | error e => rw [hp] at h; simp at h
+    | ok r =>
+      obtain ⟨parsed, g3⟩ := r
+      rw [hp] at h
+      simp only [] at h
+      have hpl := parseColumns_length ext L.units _ f2 parsed g3 hp
+      split at h
+      · simp at h
+      · simp only [pure, Except.pure, Except.ok.injEq, Prod.mk.injEq] at h
+        obtain ⟨rfl, _⟩ := h
+        refine ⟨by simp only; omega, ?_, hd⟩
+        simp only [List.length_append, List.length_replicate]
+        omega
+
+/-- **jsondata_commutes, for what a reader produces**: for every precursor `make_table_json_precursor` delivers
+    (any grid, any fixer, any `ext`) with pairwise distinct column names, and the Table built from it -/
+theorem jsondata_commutes_read (ext : Ext) (cells : List Row) (f0 f : Fixer) (p : Precursor)
+    (h : makePrecursor ext cells f0 = .ok (p, f)) (dests : List Str) (hperm : dests.Perm p.destinations)
+    (hn : p.names.Nodup) :
+    ∃ jp jt, ofPrecursor p = .ok jp ∧ ofTable (tableOf p dests) = .ok jt ∧ PyEq jp jt ∧
+      member "columns".toList jp = member "columns".toList jt ∧ C08.columnKeys jp = p.names :=
+  have hs := makePrecursor_shape ext cells f0 f p h
+  jsondata_commutes p dests hperm hs.2.2 hs.1 hs.2.1 hn
 
 /-- what a `jsondata` block stands for: the JsonData of its precursor -/
 def jsonOf : BlockVal → Option (Except PyExc JVal)
